@@ -188,8 +188,9 @@ def use_circuit_code_body(code: int, session_id_bytes: bytes, agent_id_bytes: by
     return tmpl.freq_num_bytes + struct.pack("<I", code) + session_id_bytes + agent_id_bytes
 
 
-def var_str(s: str, size=1) -> bytes:
-    data = s.encode("utf8") + b"\x00"
+def var_str(s, size=1) -> bytes:
+    # (bytes are taken as they are: text in another encoding, or cut mid-character, with or without terminator)
+    data = s if isinstance(s, bytes) else s.encode("utf8") + b"\x00"
     return struct.pack("<B" if size == 1 else "<H", len(data)) + data
 
 
